@@ -47,7 +47,9 @@ def gen_synthetic(run, i):
         if k == 2:
             data[b] = np.array([[rng.random() for _ in range(w)] for _ in range(h)], dtype='float32')
         else:
-            data[b] = np.array([[rng.uniform(-3, 8) for _ in range(w)] for _ in range(h)], dtype='float32')
+            # value range per band: mixed sign, all negative (e.g. the offsets of a hazy source), all positive, constant
+            lo, hi = [(-3, 8), (-9, -1), (2, 8), (-3, 8), (-0.5, -0.5)][(i + b) % 5] if b != 0 else (-3, 8)
+            data[b] = np.array([[rng.uniform(lo, hi) for _ in range(w)] for _ in range(h)], dtype='float32')
     pattern = ['common-border', 'band1-strip', 'per-band-holes', 'r2-nan-patches', 'band1-empty-corner'][(i // 3) % 5]
     data[:, :rng.randint(0, 3), :] = np.nan
     if pattern == 'band1-strip':
